@@ -207,6 +207,78 @@ def e2e_case(ctx, case):
         ctx.fail("e2e|ir-type|" + reg, "%s: IR value has type %s, expected %s" % (what, arg.Type, M.tname(exp[1])), case)
 
 
+def spelling_items():
+    """operands that are literals, and operator applications nested inside another one"""
+    items = []
+    lit = {("s", "int"): "2", ("s", "float"): "2.5"}
+    for o in M.ALL_OPS:
+        for t in SPELLABLE:
+            for lt in lit:
+                items.append(("lit-right", o, t, lt, None, None))
+                items.append(("lit-left", o, lt, t, None, None))
+        for l in SPELLABLE[:3]:
+            for r in SPELLABLE[:3]:
+                for o2 in ("*", "+", "<", "/"):
+                    for t3 in SPELLABLE[:3]:
+                        items.append(("nested-left", o, l, r, o2, t3))
+                        items.append(("nested-right", o, l, r, o2, t3))
+    return items
+
+
+def spelling_case(ctx, case):
+    variant, o, l, r, o2, t3 = case
+    ctx.count()
+    exp = expectation(o, l, r)
+    if exp[0] == "open":
+        ctx.discard("open:" + exp[1])
+        return
+    lit = {("s", "int"): "2", ("s", "float"): "2.5"}
+    reg = variant + "|" + region(o, l, r)
+    if variant == "lit-right":
+        src = "export function f ( %s a ) -> int { return k ( a %s %s ) ; }\n" % (M.tname(l), o, lit[r])
+        what = "%s %s %s" % (M.tname(l), o, lit[r])
+    elif variant == "lit-left":
+        src = "export function f ( %s b ) -> int { return k ( %s %s b ) ; }\n" % (M.tname(r), lit[l], o)
+        what = "%s %s %s" % (lit[l], o, M.tname(r))
+    else:
+        inner = "( a %s b )" % o
+        whole = "%s %s c" % (inner, o2) if variant == "nested-left" else "c %s %s" % (o2, inner)
+        src = "export function f ( %s a , %s b , %s c ) -> int { return k ( %s ) ; }\n" % (M.tname(l), M.tname(r), M.tname(t3), whole)
+        what = "%s with a: %s, b: %s, c: %s" % (whole, M.tname(l), M.tname(r), M.tname(t3))
+    final = exp
+    if variant.startswith("nested") and exp[0] == "accept":
+        final = expectation(o2, exp[1], t3) if variant == "nested-left" else expectation(o2, t3, exp[1])
+        if final[0] == "open":
+            ctx.discard("open:" + final[1])
+            return
+    ctx.label("spelling:" + variant)
+    c = adapter.compile_src(_overloads() + src)
+    if final[0] == "reject" or exp[0] == "reject":
+        if c.ok or c.stage != "front":
+            ctx.fail("e2e|accepts-undefined|" + reg, "%s must be rejected but the front end accepted it (%s)" % (what, c.why()), case)
+        return
+    if l[1] != r[1] or variant.startswith("nested"):
+        ctx.nontrivial(case)
+    if not c.ok:
+        if c.stage == "front":
+            ctx.fail("e2e|rejects-defined|" + reg, "%s is defined (type %s) but the program is rejected: %s" % (what, M.tname(final[1]), c.why()), case)
+        else:
+            ctx.discard("accepted-then-backend-failure:" + reg)
+        return
+    fn = c.ir.Functions["f"]
+    call = [i for i in fn.Instructions if type(i).__name__ == "CallInstruction"]
+    want_name = "@k->int`%s" % M.tname(final[1])
+    if not call or call[-1].Function != want_name:
+        ctx.fail("e2e|overload|" + reg, "%s: the call resolved to %s, expected %s\n%s" % (what, call[-1].Function if call else None, want_name, src), case)
+        return
+    if variant.startswith("nested"):
+        # the nested application keeps ITS OWN type: the first binary instruction is `a o b`
+        bins = [i for i in fn.Instructions if type(i).__name__ == "BinaryInstruction"]
+        if bins and _ir_type(bins[0].Type) != exp[1]:
+            ctx.fail("e2e|nested-type|" + reg, "%s: the nested `a %s b` is computed as %s, its type is %s\n%s" % (
+                what, o, bins[0].Type, M.tname(exp[1]), adapter.listing(c.ir)), case)
+
+
 def _ir_type(t):
     from nsl import LinearIR
     if isinstance(t, LinearIR.FloatType):
@@ -227,6 +299,9 @@ def run(R):
 
     R.enum("interface", iface_items, iface_case)
     R.enum("end-to-end", lambda: [(o, l, r) for o in M.ALL_OPS for l in SPELLABLE for r in SPELLABLE], e2e_case)
+    R.enum("end-to-end-spellings", spelling_items, spelling_case)
+    for v in ("lit-left", "lit-right", "nested-left", "nested-right"):
+        R.require("spelling:" + v)
     R.require("expected-accept")
     R.require("expected-reject")
     R.require("e2e-expected-accept")
